@@ -1,7 +1,7 @@
 """C09 — NETCONF session establishment negotiates the right version or fails cleanly. NcHello.tla: the decision table (checked against the property's wording)
 and the exhaustive scenario space 12 cells x layouts x prefix x extra capabilities x session-id x echo; each replayed on netconf.Driver.Open."""
 import json
-from vlib import ToolError
+from vlib import ToolError, confirm
 
 
 def run(ctx):
@@ -25,13 +25,22 @@ def run(ctx):
     per = 3 if ctx.tier == "thorough" else 1
     if len(res) != len(scns) * per:
         raise ToolError("c09 answered %d of %d; stderr:\n%s" % (len(res), len(scns) * per, ctx.last_stderr[-3000:]))
+    tried = {}
     for rr in res:
         ctx.count()
         ctx.nontriv("%s/%s" % (rr["id"], rr["variant"]))
         if not rr["ok"]:
             rp = dict(scns[rr["id"]])
             rp["seg"] = rr["variant"]
-            ctx.violation(rr["sig"], rr["detail"], rp)
+            st = tried.setdefault(rr["sig"], {"ok": 0, "tries": 0})
+            if st["ok"]:
+                ctx.violation(rr["sig"], rr["detail"], rp)
+            elif st["tries"] < 4:
+                st["tries"] += 1
+                again = confirm(ctx, "c09", rp)             # V2: a candidate must reproduce when run alone
+                if again:
+                    st["ok"] += 1
+                    ctx.violation(again["sig"], again["detail"], rp)
     ctx.exhaustive = True
     ctx.traces_validated = len(res)
     ctx.sample({"scenario": scns[700]})
